@@ -280,6 +280,41 @@ def option_points(tier, seed, per_quick=4, per_thorough=30):
     return out
 
 
+# values that only make sense next to another option (inverted bounds, a page that is barely usable)
+PAIR_EXTRA = [("blank_lines_lower_bound", [2, 3]), ("blank_lines_upper_bound", [1, 2]),
+              ("tab_spaces", [1, 4]), ("max_width", [20, 30, 200]), ("comment_width", [10, 200]),
+              ("doc_comment_code_block_width", [10]), ("inline_attribute_width", [200]),
+              ("short_array_element_width_threshold", [0, 100])]
+
+
+def option_pair_points(tier, seed, quick=250):
+    """Two options at a time: every pair of (option, value) points of OPTION_SWEEP + PAIR_EXTRA
+    with different option names, each on one corpus file chosen by a hash of the pair.  The
+    thorough tier takes every pair; quick takes the pairs among the PAIR_EXTRA options plus a
+    hash-ranked prefix.  -> list of (pid, name, text, opts)"""
+    files = [f for f in corpus() if len(f[1]) < 8000]
+    single = [(o, v) for o, vals in OPTION_SWEEP + PAIR_EXTRA for v in vals]
+    extra = {o for o, _ in PAIR_EXTRA}
+    pairs = []
+    for i, (o1, v1) in enumerate(single):
+        for (o2, v2) in single[i + 1:]:
+            if o1 != o2:
+                pairs.append(((o1, v1), (o2, v2)))
+    pairs.sort(key=lambda p: core.fnv(repr(p).encode()))
+    out = []
+    for k, ((o1, v1), (o2, v2)) in enumerate(pairs):
+        if tier != "thorough" and k >= quick and not (o1 in extra and o2 in extra):
+            continue
+        h = core.fnv(f"{o1}={v1},{o2}={v2}".encode())
+        name, text = files[h % len(files)]
+        se = STYLE_EDITIONS[(h // 7) % 3]
+        opts = {"max_width": 100, "style_edition": se}
+        opts[o1] = v1
+        opts[o2] = v2
+        out.append((f"{name}@se={se},opt.{o1}={v1},opt.{o2}={v2}", name, text, opts))
+    return out
+
+
 def dirty(text, seed):
     """A token-preserving perturbation that ADDS what a formatter must remove: blanks at the end
     of lines and on blank lines (outside string / comment context, as in relayout)."""
